@@ -484,7 +484,35 @@ class Check:
             self.cov['print_assumptions'][vfile] = {'closed_under_global_context': closed, 'axioms': names}
             if names:
                 self.assumptions.append(f'{vfile}: standard-library axioms reported by Print Assumptions: ' + ', '.join(names))
+        if ok and good(vfile) and self.tier == 'thorough':
+            self.coqchk(vfile)
         return ok and good(vfile)
+
+    def coqchk(self, vfile):
+        """thorough tier: re-check the compiled property file and everything it depends on with the independent checker
+        and record its context summary (axioms, type-in-type, unsafe fixpoints, assumed positivity)"""
+        mod = 'Covfie.' + os.path.basename(vfile)[:-2]
+        rc, out = sh(['coqchk', '-o', '-silent', '-Q', '.', 'Covfie', mod], cwd=COQ, timeout=3600)
+        summ = out[out.find('CONTEXT SUMMARY'):] if 'CONTEXT SUMMARY' in out else out[-1500:]
+        def section(title):
+            m = re.search(r'\* ' + re.escape(title) + r':(.*?)(?=\n\* |\Z)', summ, flags=re.S)
+            if not m:
+                return None
+            items = [x.strip() for x in m.group(1).strip().split('\n') if x.strip()]
+            return [] if items == ['<none>'] else items
+        rec = {'exit': rc, 'axioms': section('Axioms'), 'type_in_type': section('Constants/Inductives relying on type-in-type'),
+               'unsafe_fixpoints': section('Constants/Inductives relying on unsafe (co)fixpoints'), 'assumed_positivity': section('Inductives whose positivity is assumed')}
+        self.cov.setdefault('coqchk', {})[vfile] = rec
+        self.cov['checker_cmd'] += f'; coqchk -o -silent -Q . Covfie {mod}'
+        if rc != 0 or rec['axioms'] is None:
+            self.obligation_broken(f'coqchk rejects {mod}', out[-2000:])
+        elif rec['type_in_type'] or rec['unsafe_fixpoints'] or rec['assumed_positivity']:
+            self.obligation_broken(f'coqchk: {mod} relies on switched-off kernel checks', summ[-1500:])
+        allowed = ('Coq.Logic.FunctionalExtensionality.functional_extensionality_dep', 'Coq.Reals.ClassicalDedekindReals.sig_not_dec',
+                   'Coq.Reals.ClassicalDedekindReals.sig_forall_dec', 'Coq.Logic.Classical_Prop.classic')
+        extra = [a for a in (rec['axioms'] or []) if a not in allowed]
+        if extra:
+            self.obligation_broken(f'coqchk: {mod} depends on axioms outside the named standard-library ones', ', '.join(extra))
 
     # -- finishing -------------------------------------------------------------
     def finish(self):
